@@ -14,7 +14,8 @@
 From Coq Require Import String.
 From Verif Require Import Lib.Base Lib.Dec Lib.PyStr Gen.PyChars Deb822.Spec
   Copyright.Fields Copyright.Doc Copyright.DocSpec Copyright.DocBridge
-  Copyright.FieldsProofs Copyright.DocProofs Copyright.DocRoundtrip.
+  Copyright.FieldsProofs Copyright.DocProofs Copyright.DocRoundtrip
+  Copyright.DocCheck Copyright.DocCheckProofs.
 From Verif Require Deb822.Model.
 
 (** 1. multiline_codec_inverse.  For every line list in [ml_dom] — no line contains a
@@ -159,6 +160,39 @@ Theorem C17_valid_value_accepted :
   forall v, valid_value v = true -> validate_input v = Ok tt.
 Proof. exact validate_valid_value. Qed.
 
+(** 8. The bridge to the correspondence check (Copyright/DocCheck.v), unconditional: for
+       every case of every constructor — every line list / text / license / item list / history
+       of header operations and paragraphs, in or outside the domains, every observed value
+       or exception, either spelling of the re-read half of a document observation — an
+       observation that agrees with the model ([agree]) passes the property's judgement
+       ([holds]).  So a [holds] failure never occurs without an [agree] failure.
+       For the cases that start from an arbitrary text (KSSFrom, KLBFrom), whose [holds] has
+       no domain guard, the proof rests on two facts of their own: from_str only ever
+       produces lists of the encoder's domain. *)
+Theorem C17_agree_implies_holds :
+  forall c, agree c = true -> holds c = true.
+Proof. exact agree_implies_holds. Qed.
+
+(** [holds] reads a written-out second half [Some (v2, d2)] as the abbreviated [None] exactly
+    when it IS the first half (same values, same text) and rejects it otherwise: the judgement
+    does not depend on how the harness spells a redundant value, and is no weaker for it. *)
+Theorem C17_holds_spelling :
+  forall hops specs form strict d1 v1 v2 d2,
+    holds (KDoc hops specs form strict (ODone d1 v1 (Some (v2, d2))))
+    = (if wf_copyright_weak (map shop_of hops) (map spara_of specs)
+       then views_eqb (map pview_of v2) (map pview_of v1) && str_eqb (dec d2) (dec d1)
+            && holds (KDoc hops specs form strict (ODone d1 v1 None))
+       else true).
+Proof. exact holds_spelling. Qed.
+
+(** _SpaceSeparated.from_str / _LineBased.from_str of ANY text (or None) is a list the
+    encoder accepts and carries: so decode -> encode -> decode is the identity everywhere. *)
+Theorem C17_space_separated_range : forall s, ss_dom (ss_from_str s) = true.
+Proof. exact ss_from_str_dom. Qed.
+
+Theorem C17_line_based_range : forall s, lb_dom (lb_from_str s) = true.
+Proof. exact lb_from_str_dom. Qed.
+
 (** * Non-vacuity, and the behaviour outside the domains *)
 Local Open Scope string_scope.
 
@@ -227,6 +261,29 @@ Example C17_document_nonvacuous :
      end = true.
 Proof. vm_compute. repeat split; reflexivity. Qed.
 
+(** 8 on a document case inside the domain (one Files and one License paragraph, re-read from
+    a file object, strict), in both spellings of the re-read half; a written-out second half
+    that differs (here: another dump text) is rejected by [holds] — and by [agree] *)
+Example C17_bridge_nonvacuous :
+  let hops := [IHSet 1 (IStr "pkg")] in
+  let specs := [ILicense (ILic "MIT" (Some "Permission\00000a\00000a  x")) INone;
+                IFiles (IList ["*"; "src/*.c"]) (IStr "2014 Foo") (ILic "GPL-2+" None) INone] in
+  let hv := mkOV false [OStr "https://www.debian.org/doc/packaging-manuals/copyright-format/1.0/";
+                        OStr "pkg"; OList []; ONone; ONone; ONone; ONone; ONone; OList []; OList []] in
+  let v := [hv;
+            mkOV true [OList ["*"; "src/*.c"]; OStr "2014 Foo"; OLic "GPL-2+" ""; ONone];
+            mkOV false [OLic "MIT" "Permission\00000a\00000a  x"; ONone]] in
+  let d := "Format: https://www.debian.org/doc/packaging-manuals/copyright-format/1.0/\00000aUpstream-Name: pkg\00000a\00000aFiles: * src/*.c\00000aCopyright: 2014 Foo\00000aLicense: GPL-2+\00000a\00000aLicense: MIT\00000a Permission\00000a .\00000a   x\00000a" in
+  let c again := KDoc hops specs 4 true (ODone d v again) in
+  wf_copyright (map shop_of hops) (map spara_of specs) = true
+  /\ agree (c None) = true /\ holds (c None) = true
+  /\ agree (c (Some (v, d))) = true /\ holds (c (Some (v, d))) = true
+  /\ agree (c (Some (v, "x"))) = false /\ holds (c (Some (v, "x"))) = false
+  /\ agree (c (Some ([hv], d))) = false /\ holds (c (Some ([hv], d))) = false
+  /\ (let k := KSSFrom (Some " a \000009b\00000ac ") ["a"; "b"; "c"] (Ok (Some "a b c")) ["a"; "b"; "c"] in
+      agree k = true /\ holds k = true).
+Proof. vm_compute. repeat split; reflexivity. Qed.
+
 Print Assumptions C17_multiline_codec_inverse.
 Print Assumptions C17_multiline_codec_edge.
 Print Assumptions C17_multiline_text_inverse.
@@ -244,3 +301,7 @@ Print Assumptions C17_license_value_valid.
 Print Assumptions C17_files_value_valid.
 Print Assumptions C17_lines_value_valid.
 Print Assumptions C17_valid_value_accepted.
+Print Assumptions C17_agree_implies_holds.
+Print Assumptions C17_holds_spelling.
+Print Assumptions C17_space_separated_range.
+Print Assumptions C17_line_based_range.
